@@ -249,49 +249,37 @@ class StereoCondensedReactionGraph(StereoMolGraph, CondensedReactionGraph):
                      defaults to True
         :return: Returns the relabeled graph or None if copy is False
         """
-        relabeled_scrg = self.__class__(
-            super().relabel_atoms(mapping, copy=copy)
-        )
-
-        atom_stereo_change: defaultdict[AtomId, ChangeDict[AtomStereo]] = (
-            defaultdict(ChangeDict[AtomStereo])
-        )
+        atom_stereo_change: dict[AtomId, ChangeDict[AtomStereo]] = {}
 
         for atom, stereo_change_dict in self._atom_stereo_change.items():
+            new_atom_dict = ChangeDict[AtomStereo]()
             for stereo_change, atom_stereo in stereo_change_dict.items():
                 if atom_stereo is None:
                     continue
-                new_stereo = atom_stereo.__class__(
-                    tuple(
-                        mapping.get(atom, atom) for atom in atom_stereo.atoms
-                    ),
+                new_atom_dict[stereo_change] = atom_stereo.__class__(
+                    tuple(mapping.get(a, a) for a in atom_stereo.atoms),
                     atom_stereo.parity,
                 )
-                atom_stereo_change[mapping[atom]][stereo_change] = new_stereo
+            atom_stereo_change[mapping.get(atom, atom)] = new_atom_dict
 
-        bond_stereo_change: defaultdict[Bond, ChangeDict[BondStereo]] = (
-            defaultdict(ChangeDict[BondStereo])
-        )
+        bond_stereo_change: dict[Bond, ChangeDict[BondStereo]] = {}
 
         for bond, stereo_change_dict in self._bond_stereo_change.items():
+            new_bond_dict = ChangeDict[BondStereo]()
             for stereo_change, bond_stereo in stereo_change_dict.items():
                 if bond_stereo is None:
                     continue
-                new_bond = Bond(mapping[a] for a in bond)
-                new_stereo = bond_stereo.__class__(
-                    tuple(
-                        mapping.get(atom, atom) for atom in bond_stereo.atoms
-                    ),
+                new_bond_dict[stereo_change] = bond_stereo.__class__(
+                    tuple(mapping.get(a, a) for a in bond_stereo.atoms),
                     bond_stereo.parity,
                 )
-                bond_stereo_change[new_bond][stereo_change] = new_stereo
+            new_bond = Bond(mapping.get(a, a) for a in bond)
+            bond_stereo_change[new_bond] = new_bond_dict
 
-        if copy is True:
-            relabeled_scrg._atom_stereo_change = atom_stereo_change
-            relabeled_scrg._bond_stereo_change = bond_stereo_change
-        else:
-            self._atom_stereo_change = atom_stereo_change
-            self._bond_stereo_change = bond_stereo_change
+        # returns self if copy is False
+        relabeled_scrg = super().relabel_atoms(mapping, copy=copy)
+        relabeled_scrg._atom_stereo_change = atom_stereo_change
+        relabeled_scrg._bond_stereo_change = bond_stereo_change
 
         return relabeled_scrg
 
